@@ -85,6 +85,10 @@ package contextscope
 //@ func NewIsolated [C11 C12]
 //@   requires parent != nil
 //@   ensures typeis(result0, "*Isolated") && fresh(ref(as(result0, "*Isolated"))) && as(result0, "*Isolated").parent == parent && as(result0, "*Isolated").done != nil
+// every isolated context gets its watcher - also when the parent is already done at that moment
+// (the watcher is what stops the child of a parent that stopped without an error)
+//@   trace go:NewIsolated$1 as WATCHER
+//@   trace_ensures true : WATCHER $
 // (C12: the watcher ends the isolated context through Kill / Stop only - the one place that
 // closes the done channel under the mutex - never by closing the channel itself)
 //@ func NewIsolated$1 [C11 C12]
